@@ -60,6 +60,7 @@ def setup(cx):
         from pyvc.values import IterV
         return IterV(it.n, lambda i: (it.get(i)[0], atom_view(it.get(i)[1])))
     nodes.attrs['__call__'] = Builtin(nodes_call, 'nodes(data=True)')
+    nodes.attrs['__len__'] = Builtin(lambda e: e.numval(TSeq(NodeRec).len(to_z3(atoms))), 'len(nodes)')
     ADDED = cx.heap('ADDED_NODES', Box(TSeq(Site)))
     ADDED_VS = cx.heap('ADDED_VS', Box(TSeq(VS)))
     TYPES = cx.heap('ATOMTYPES', Box(TSeq(TTuple(TInt))))
